@@ -316,3 +316,10 @@ PROPS["C20"] = {
     "assumptions": COMMON_ASSUMPTIONS + ["race-detector reports carry the seed and the two stacks instead of an exact schedule; the verdict is a function of the wave structure, not of timing",
                                           "reloads of one file are serialised by the harness (a file has one content at a time); filterEvent / WaitForReplacement (fsnotify event filtering) are outside the simulated world"],
 }
+
+# free-running passes under the race detector (see sim/freerun.go)
+for _p in ("C10", "C12"):
+    PROPS[_p]["passes"] = [{"variant": ""}, {"race": True, "variant": "race", "quick_runs": 48, "thorough_runs": 600, "workers": 8}]
+    PROPS[_p]["race_files"] = ()  # any access inside the repository (harness frames excluded)
+    PROPS[_p]["rule"] += ("; plus a free-running pass of the -race binary: 2-16 clients in truly parallel goroutines (logins of different users and sizes, simultaneous staleness of all "
+                         "sessions on two replicas): every browser must load its own session, and any race-detector report whose conflicting access lies in repository code is a violation")
